@@ -200,6 +200,14 @@ def run(ctx):
         f = ctx.fn(RS + "::" + acc)
         gu = [t for b, t, c in f.calls() if c and "get_unchecked" in c]
         ok = len(gu) == 1 and expr_str(f.expr(gu[0]["args"][1], 6)) in ("(reg as usize)", "(addr as usize)")
+        if not gu:
+            # checked indexing form: `self.mem[usize::from(addr)]` / `self.reg[reg as usize]` - a BoundsCheck whose index is the parameter, widened
+            idx = [f.expr(t["ops"][1], 8) for b in sorted(f.live_blocks()) for t in [f.term(b)] if t["k"] == "assert" and t.get("ak") == "BoundsCheck"]
+            def is_param(x):
+                while x[0] == "cast":
+                    x = x[3]
+                return x[0] == "arg" and x[1] == 2
+            ok = len(idx) == 1 and is_param(idx[0])
         ctx.oblig(ok, None)
         if not ok:
             ctx.violation("accessor-body|%s" % acc, f.file_line(), "accessor `%s` does not index with its own parameter" % acc)
